@@ -8,6 +8,7 @@ import (
 	"time"
 
 	"github.com/mosaicnetworks/babble/src/common"
+	"github.com/mosaicnetworks/babble/src/crypto/keys"
 	hg "github.com/mosaicnetworks/babble/src/hashgraph"
 	"github.com/mosaicnetworks/babble/src/peers"
 	"github.com/mosaicnetworks/babble/src/proxy"
@@ -362,6 +363,22 @@ func (c *core) knownEvents() map[uint32]int {
 FastForward
 *******************************************************************************/
 
+// checkFrameEvent verifies that a FrameEvent received from another node can be
+// inserted and sorted: it must carry a core Event with its two parents and a
+// signature that can be decoded.
+func checkFrameEvent(ev *hg.FrameEvent) error {
+	if ev == nil || ev.Core == nil {
+		return fmt.Errorf("Frame contains a nil Event")
+	}
+	if len(ev.Core.Body.Parents) != 2 {
+		return fmt.Errorf("Frame Event does not have 2 parents")
+	}
+	if _, _, err := keys.DecodeSignature(ev.Core.Signature); err != nil {
+		return fmt.Errorf("Frame Event signature: %v", err)
+	}
+	return nil
+}
+
 // fastForward is used whilst in CatchingUp state to reset the underlying
 // hashgraph from a Block and associated Frame.
 func (c *core) fastForward(block *hg.Block, frame *hg.Frame) error {
@@ -377,6 +394,21 @@ func (c *core) fastForward(block *hg.Block, frame *hg.Frame) error {
 			if p == nil {
 				return fmt.Errorf("Frame PeerSets contain a nil Peer")
 			}
+		}
+	}
+	for _, r := range frame.Roots {
+		if r == nil {
+			return fmt.Errorf("Frame contains a nil Root")
+		}
+		for _, ev := range r.Events {
+			if err := checkFrameEvent(ev); err != nil {
+				return err
+			}
+		}
+	}
+	for _, ev := range frame.Events {
+		if err := checkFrameEvent(ev); err != nil {
+			return err
 		}
 	}
 
